@@ -710,19 +710,17 @@ func (c *Compiler) compileFromImport(node *ast.FromImport) error {
 	for _, parent := range node.Parents() {
 		c.emit(op.LoadConst, c.constant(parent.String()))
 	}
-	aliases := map[string]string{}
 	for _, im := range node.Imports() {
-		name := im.Path().Value()
-		alias := name
-		if im.Alias() != nil {
-			alias = im.Alias().String()
-		}
-		c.emit(op.LoadConst, c.constant(name))
-		aliases[name] = alias
+		c.emit(op.LoadConst, c.constant(im.Path().Value()))
 	}
 	c.emit(op.FromImport, uint16(len(node.Parents())), uint16(len(node.Imports())))
 	for _, im := range node.Imports() {
-		alias := aliases[im.Path().Value()]
+		// The name that this import binds. One name can be imported more
+		// than once, under different aliases
+		alias := im.Path().Value()
+		if im.Alias() != nil {
+			alias = im.Alias().String()
+		}
 		var sym *Symbol
 		var found bool
 		sym, found = c.current.symbols.Get(alias)
